@@ -157,3 +157,11 @@ func VerifC15_ExtractTail() { verifExtractCase(true) }
 //verif:reach extracted no-match
 //verif:paths 100000
 func VerifC15_ExtractHead() { verifExtractCase(false) }
+
+// VerifC07_ExtractHeadAnyLabel: the head-extraction run read for C07: the
+// extraction steps run on the connection goroutine of the input, where nothing
+// recovers a panic - no label (blank, control characters only, empty) may panic.
+//
+//verif:reach extracted no-match
+//verif:paths 100000
+func VerifC07_ExtractHeadAnyLabel() { VerifC15_ExtractHead() }
